@@ -8,6 +8,11 @@ Open Scope N_scope.
 Lemma commits_app : forall a b, commits (a ++ b) = commits a ++ commits b.
 Proof. intros. unfold commits. apply flat_map_app. Qed.
 
+Lemma commits_cons_true : forall t i evs, commits ((t, i, true) :: evs) = (t, i) :: commits evs.
+Proof. reflexivity. Qed.
+Lemma commits_cons_false : forall t i evs, commits ((t, i, false) :: evs) = commits evs.
+Proof. reflexivity. Qed.
+
 Lemma prog_get_set_same : forall t i l, prog_get t (prog_set t i l) = Some i.
 Proof.
   induction l as [|[k v] r IH]; cbn [prog_set prog_get].
@@ -37,7 +42,7 @@ Proof.
   - exists 0%nat. cbn. repeat split; try lia.
   - cbn [enum_from drop]. destruct (s =? 0) eqn:E.
     + exists 0%nat. cbn [skipn]. repeat split; try lia.
-      cbn [enum_from]. f_equal; [f_equal; lia|]. reflexivity.
+      replace (i + N.of_nat 0) with i by lia. reflexivity.
     + destruct (IH (s - 1) (i + 1)) as (m & Hm & Hmin & Heq).
       exists (S m). cbn [length skipn]. repeat split; try lia.
       rewrite Heq. apply enum_from_ext. lia.
@@ -50,11 +55,17 @@ Proof.
   induction len as [|n IH]; intros s i.
   - exists 0%nat. cbn. repeat split; lia.
   - cbn [nseq drop]. destruct (s =? 0) eqn:E.
-    + exists 0%nat. repeat split; try lia. cbn [nseq Nat.sub]. f_equal; [lia|].
-      f_equal.
+    + exists 0%nat. repeat split; try lia.
+      replace (i + N.of_nat 0) with i by lia. reflexivity.
     + destruct (IH (s - 1) (i + 1)) as (m & Hm & Hmin & Heq).
       exists (S m). repeat split; try lia.
       rewrite Heq. cbn [Nat.sub]. f_equal. lia.
+Qed.
+
+Lemma skipn_skipn' : forall {A} (l : list A) a b, skipn a (skipn b l) = skipn (b + a) l.
+Proof.
+  intros A l a b. revert l. induction b as [|b IH]; intros l; cbn [skipn Nat.add]; auto.
+  destruct l; cbn [skipn]; auto. destruct a; reflexivity.
 Qed.
 
 Lemma nseq_app : forall a b i, nseq i (a + b) = nseq i a ++ nseq (i + N.of_nat a) b.
@@ -102,16 +113,17 @@ Section Resume.
     induction items as [|[i g] rest IH]; intros h h' st done done'.
     - reflexivity.
     - cbn [Import.run_loop]. unfold token_cancelled, fail_here. cbn [cancel_at fail_at clean].
-      destruct (Hmem t h g (sdb st)) as [Ha Hb]. destruct (Hmem t h' g (sdb st)) as [Ha' Hb'].
+      pose proof (Hmem t h g (sdb st)) as [Ha Hb]. pose proof (Hmem t h' g (sdb st)) as [Ha' Hb'].
+      assert (Hd : snd (fst (process t h g (sdb st))) = snd (fst (process t h' g (sdb st)))) by congruence.
+      assert (Hk : snd (process t h g (sdb st)) = snd (process t h' g (sdb st))) by congruence.
+      clear Ha Hb Ha' Hb'.
       destruct (process t h g (sdb st)) as [[h1 d1] ok1].
       destruct (process t h' g (sdb st)) as [[h2 d2] ok2].
-      cbn [fst snd] in *.
-      assert (d1 = d2) by congruence. assert (ok1 = ok2) by congruence. subst d2 ok2.
+      cbn [fst snd] in Hd, Hk. subst d2 ok2.
       destruct ok1.
       + specialize (IH h1 h2 (mkStore d1 (prog_set t i (sprog st))) (done + 1) (done' + 1)).
         unfold cres in *. cbn [o_st o_evs o_res] in *.
-        injection IH as I1 I2 I3. cbn [commits flat_map]. f_equal; auto.
-        cbn [app]. f_equal. exact I2.
+        injection IH as I1 I2 I3. rewrite !commits_cons_true. rewrite I1, I2, I3. reflexivity.
       + reflexivity.
   Qed.
 
@@ -120,6 +132,23 @@ Section Resume.
 
   Lemma cl_nil : forall t st, cl t [] st = mkCr st [] ROk.
   Proof. reflexivity. Qed.
+
+  Lemma cl_cons : forall t i g rest st h h1 d1,
+    process t h g (sdb st) = (h1, d1, true) ->
+    cl t ((i, g) :: rest) st = cr_pre [(t, i)] (cl t rest (mkStore d1 (prog_set t i (sprog st)))).
+  Proof.
+    intros t i g rest st h h1 d1 Ep.
+    unfold cl at 1. cbn [Import.run_loop]. unfold token_cancelled, fail_here.
+    cbn [cancel_at fail_at clean].
+    destruct (Hmem t h g (sdb st)) as [Ha Hb]. rewrite Ep in Ha, Hb. cbn [fst snd] in Ha, Hb.
+    destruct (process t (h0 t) g (sdb st)) as [[h2 d2] ok2]. cbn [fst snd] in Ha, Hb.
+    subst d2 ok2.
+    set (st' := mkStore d1 (prog_set t i (sprog st))).
+    set (X := run_loop clean t rest h2 st' (0 + 1)).
+    unfold cres at 1. cbn [o_st o_evs o_res]. rewrite commits_cons_true.
+    change (cr_pre [(t, i)] (cres X) = cr_pre [(t, i)] (cl t rest st')).
+    unfold X, cl. rewrite (clean_loop_indep t rest h2 (h0 t) st' (0 + 1) 0). reflexivity.
+  Qed.
 
   (* one session of one task executes a prefix of what the clean run executes, and leaves the
      clean run exactly the rest *)
@@ -164,26 +193,11 @@ Section Resume.
       repeat split.
       + lia.
       + (* the clean run does the same first step *)
-        unfold cl at 1. cbn [Import.run_loop]. unfold token_cancelled, fail_here.
-        cbn [cancel_at fail_at clean].
-        destruct (Hmem t h g (sdb st)) as [Ha Hb]. rewrite Ep in Ha, Hb. cbn [fst snd] in Ha, Hb.
-        destruct (process t (h0 t) g (sdb st)) as [[h2 d2] ok2]. cbn [fst snd] in Ha, Hb.
-        subst d2 ok2. fold st'.
-        unfold cres. cbn [o_st o_evs o_res].
-        pose proof (clean_loop_indep t (enum_from (i + 1) r) h2 (h0 t) st' (0 + 1) 0) as Hind.
-        unfold cres in Hind. injection Hind as J1 J2 J3.
-        rewrite J1, J3. cbn [commits flat_map app]. fold (commits (o_evs (run_loop clean t (enum_from (i + 1) r) h2 st' (0 + 1)))).
-        rewrite J2.
-        unfold cl in Hcl. unfold cres in Hcl. unfold cr_pre in Hcl. cbn [c_st c_cm c_res] in Hcl.
-        injection Hcl as K1 K2 K3.
-        unfold cr_pre, cl, cres. cbn [c_st c_cm c_res].
+        rewrite (cl_cons t i g (enum_from (i + 1) r) st h h1 d1 Ep). fold st'.
+        rewrite Hcl. rewrite cr_pre_pre. rewrite commits_cons_true.
         replace (i + N.of_nat (S k)) with (i + 1 + N.of_nat k) by lia.
-        rewrite K1, K2, K3. cbn [commits flat_map app].
-        fold (commits (o_evs (run_loop p t (enum_from (i + 1) r) h1 st' (done + 1)))).
         reflexivity.
-      + cbn [commits flat_map app nseq map].
-        fold (commits (o_evs (run_loop p t (enum_from (i + 1) r) h1 st' (done + 1)))).
-        rewrite Hcm. reflexivity.
+      + rewrite commits_cons_true. cbn [nseq map]. rewrite Hcm. reflexivity.
       + intros Hr. rewrite (Hok Hr). reflexivity.
       + intros; lia.
       + intros _. destruct k.
@@ -222,14 +236,14 @@ Section Resume.
     intros p t gs st done Hfit. cbn zeta. rewrite !ct_eq.
     unfold Import.run_task. destruct gs as [|g0 r0].
     { cbn [o_evs o_st commits flat_map]. rewrite cr_pre_nil. repeat split; auto. }
-    set (gs := g0 :: r0) in *.
+    lazy iota. set (gs := g0 :: r0) in *.
     fold (items_of t gs st).
     destruct (drop_enum gs (task_skip t st) 0) as (m & Hm & Hmin & Hdrop).
     fold (items_of t gs st) in Hdrop.
     destruct (items_of t gs st) as [|it its] eqn:Eit.
     { cbn [o_evs o_st o_res commits flat_map]. rewrite cr_pre_nil. rewrite Eit.
       repeat split; auto. }
-    rewrite <- Eit. rewrite Hdrop.
+    rewrite Hdrop.
     destruct (loop_split p t (skipn m gs) (0 + N.of_nat m) (h0 t) st done)
       as (k & Hk & Hcl & Hcm & Hok & Hz & Hnz & Hoth).
     set (o := run_loop p t (enum_from (0 + N.of_nat m) (skipn m gs)) (h0 t) st done) in *.
@@ -237,13 +251,13 @@ Section Resume.
     (* what a restart sees *)
     assert (Hrest : items_of t gs (o_st o) = enum_from (0 + N.of_nat m + N.of_nat k) (skipn k (skipn m gs))).
     { destruct k as [|k'].
-      - rewrite (Hz eq_refl). rewrite Eit, <- Eit, Hdrop. cbn [skipn]. apply enum_from_ext. lia.
+      - rewrite (Hz eq_refl). rewrite Eit, Hdrop. cbn [skipn]. apply enum_from_ext. lia.
       - unfold items_of, Import.task_skip. rewrite Hnz by lia.
         unfold fits in Hfit. unfold sat_add.
         replace (N.min usize_max (0 + N.of_nat m + N.of_nat (S k') - 1 + 1)) with (N.of_nat (m + S k')) by lia.
         destruct (drop_enum gs (N.of_nat (m + S k')) 0) as (m2 & Hm2 & Hmin2 & Hdrop2).
         rewrite Hdrop2. assert (m2 = (m + S k')%nat) by lia. subst m2.
-        rewrite skipn_skipn. rewrite (Nat.add_comm (S k') m).
+        rewrite skipn_skipn'.
         apply enum_from_ext. lia. }
     repeat split.
     - rewrite Hcl. rewrite Hrest. reflexivity.
@@ -273,8 +287,8 @@ Section Resume.
       specialize (IH (o_st (run_task clean t gs st done')) (o_done (run_task clean t gs st done))
                      (o_done (run_task clean t gs st done'))).
       unfold cres in IH. injection IH as I1 I2 I3. rewrite I1, I2, I3. reflexivity.
-    - unfold cres. f_equal; assumption.
-    - unfold cres. f_equal; assumption.
+    - apply run_task_clean_done.
+    - apply run_task_clean_done.
   Qed.
 
   Lemma cA_cons : forall t gs tl st,
@@ -286,9 +300,8 @@ Section Resume.
   Proof.
     intros. unfold cA at 1. cbn [Import.import_all]. unfold ct. cbn [cres c_res c_cm c_st].
     destruct (o_res (run_task clean t gs st 0)) eqn:Er.
-    - unfold cres at 1. cbn [o_st o_evs o_res]. rewrite commits_app.
-      unfold cA. rewrite (import_clean_done tl _ (o_done (run_task clean t gs st 0)) 0).
-      unfold cr_pre, cres. cbn [c_st c_cm c_res]. reflexivity.
+    - unfold cA. rewrite <- (import_clean_done tl _ (o_done (run_task clean t gs st 0)) 0).
+      unfold cr_pre, cres. cbn [c_st c_cm c_res o_st o_evs o_res]. rewrite commits_app. reflexivity.
     - unfold cres. rewrite Er. reflexivity.
     - unfold cres. rewrite Er. reflexivity.
   Qed.
@@ -403,6 +416,13 @@ Section Resume.
     - exact Hoth.
   Qed.
 
+  Lemma pending_of_cons : forall t (gs : list (list E)) tl prog,
+    pending_of prog ((t, gs) :: tl) =
+      map (fun i => (t, i))
+          (drop (match prog_get t prog with Some i => sat_add usize_max i 1 | None => 0 end)
+                (nseq 0 (length gs))) ++ pending_of prog tl.
+  Proof. reflexivity. Qed.
+
   Lemma pending_of_ext : forall (tasks : list (N * list (list E))) prog prog',
     (forall t, In t (ids tasks) -> prog_get t prog' = prog_get t prog) ->
     pending_of prog' tasks = pending_of prog tasks.
@@ -422,10 +442,10 @@ Section Resume.
       inversion Hfit as [|? ? Hf Hfit']; subst. cbn [snd] in Hf.
       rewrite cA_cons in *.
       destruct (clean_task_commits t gs st Hf) as (k & _ & Hok & Hoth).
-      destruct (c_res (ct t gs st)) eqn:Er; try discriminate.
+      destruct (c_res (ct t gs st)) eqn:Er; try congruence.
       unfold cr_pre in *. cbn [c_res c_cm] in *.
       rewrite (Hok eq_refl). rewrite (IH _ (conj Hnd' Hfit') Hr).
-      unfold pending_of at 3. cbn [flat_map fst snd]. f_equal.
+      rewrite pending_of_cons. unfold Import.task_skip. f_equal.
       apply pending_of_ext. intros t' Hin. apply Hoth. intros ->. tauto.
   Qed.
 End Resume.
@@ -458,6 +478,22 @@ Proof.
     + intros j [<- | Hin]; [lia | apply Hge in Hin; lia].
 Qed.
 
+Lemma NoDup_app_intro' : forall {A} (a b : list A),
+  NoDup a -> NoDup b -> (forall x, In x a -> In x b -> False) -> NoDup (a ++ b).
+Proof.
+  induction a as [|x a IH]; intros b Ha Hb Hd; cbn [app]; auto.
+  inversion Ha as [|? ? Hn Ha']; subst. constructor.
+  - intros Hin. apply in_app_or in Hin as [Hin|Hin]; [tauto | apply (Hd x); cbn; auto].
+  - apply IH; auto. intros y Hy. apply Hd. cbn. auto.
+Qed.
+
+Lemma NoDup_map_pair : forall (t : N) l, NoDup l -> NoDup (map (fun j : N => (t, j)) l).
+Proof.
+  induction l as [|x l IH]; intros Hnd; cbn [map]; [constructor|].
+  inversion Hnd as [|? ? Hn Hnd']; subst. constructor; auto.
+  intros Hin. apply in_map_iff in Hin as (y & Hy & Hin). injection Hy as ->. tauto.
+Qed.
+
 (* in [all_groups] every group of every task occurs exactly once *)
 Lemma all_groups_NoDup : forall {E} (tasks : list (N * list (list E))),
   NoDup (map fst tasks) -> NoDup (all_groups tasks).
@@ -465,8 +501,8 @@ Proof.
   induction tasks as [|[t gs] tl IH]; intros Hnd; cbn [all_groups flat_map].
   - constructor.
   - inversion Hnd as [|? ? Hnotin Hnd']; subst. cbn [fst snd].
-    apply NoDup_app_intro.
-    + apply FinFun.Injective_map_NoDup; [intros a b Hab; congruence | apply nseq_NoDup].
+    apply NoDup_app_intro'.
+    + apply NoDup_map_pair, nseq_NoDup.
     + apply IH, Hnd'.
     + intros [a b] Hin1 Hin2. apply in_map_iff in Hin1 as (j & Hj & _). injection Hj as <- <-.
       apply in_flat_map in Hin2 as ([t' gs'] & Hin' & Hin2). cbn [fst snd] in Hin2.
@@ -494,4 +530,30 @@ Proof.
   rewrite (Hfresh t) by (cbn; auto). f_equal.
   - destruct (length gs); reflexivity.
   - apply IH. intros t' Hin. apply Hfresh. cbn. auto.
+Qed.
+
+Lemma resume_once_all :
+  forall (E D H : Type) (h0 : N -> H) (process : N -> H -> list E -> D -> H * D * bool),
+  memoryless h0 process ->
+  forall (tasks : list (N * list (list E))) (st0 : @store D) (plans : list plan),
+  wf_tasks tasks ->
+  (forall t, In t (map fst tasks) -> prog_get t (sprog st0) = None) ->
+  o_res (import_all h0 process clean tasks st0 0) = ROk ->
+  let sti := fst (run_sessions h0 process plans tasks st0) in
+  let outs := snd (run_sessions h0 process plans tasks st0) in
+  let fin := import_all h0 process clean tasks sti 0 in
+  o_res fin = ROk /\
+  flat_map (fun o => commits (o_evs o)) outs ++ commits (o_evs fin) = all_groups tasks /\
+  NoDup (all_groups tasks) /\
+  (forall t gs i, In (t, gs) tasks -> i < N.of_nat (length gs) -> In (t, i) (all_groups tasks)).
+Proof.
+  intros E D H h0 process Hmem tasks st0 plans Hwf Hfresh Hok. cbn zeta.
+  destruct (resume_equiv_all h0 process Hmem tasks st0 plans Hwf) as (Hst & Hres & Happ).
+  split; [congruence|]. split; [|split].
+  - rewrite Happ.
+    pose proof (clean_commits_pending h0 process Hmem tasks st0 Hwf) as Hp.
+    unfold cA, cres in Hp. cbn [c_res c_cm] in Hp. rewrite (Hp Hok).
+    apply pending_fresh. exact Hfresh.
+  - apply all_groups_NoDup. apply Hwf.
+  - intros t gs i. apply all_groups_complete.
 Qed.
